@@ -302,6 +302,9 @@ def oracle(ctx):
     ENT = [("'&xi;'", '\u03be'), ("'&Xi;'", '\u039e'), ("'&pi;'", '\u03c0'), ("'&#x41;'", 'A'), ("'&#65;'", 'A'), ("'&#x4A;'", 'J'), ("'&eacute;'", '\u00e9'),
            ("'&x41;'", '&amp;x41;'), ("'&xyz;'", '&amp;xyz;'), ("'&nosuch;'", '&amp;nosuch;'), ("len('&lt;&gt;&amp;')", '3'),
            # D-06d, fixed: &apos; (predefined in XML, missing from the HTML 4 table) was not decoded
+           # a raw & that begins no character reference stays (also when a legacy entity name without ';' follows it)
+           ("'?p=1&region=eu'", '?p=1&amp;region=eu'), ("'a&copy=1'", 'a&amp;copy=1'), ("'x&lt'", 'x&amp;lt'), ("'&notify;'", '&amp;notify;'),
+           ("len('&#128;')", '1'), ("'&#128;' == chr(128)", 'True'),
            ("len(&apos;ab&apos;)", '2'), ("&apos;a&apos; + &quot;b&quot; + &#39;c&#39;", 'abc')]
     for e, want in ENT:
         for src, exp in (('<p>${%s}</p>' % e, '<p>%s</p>' % want), ('<p a="${%s}">t</p>' % e, '<p a="%s">t</p>' % want)):
